@@ -105,7 +105,8 @@ PROPS = {
     "C10": dict(level="proof", theorems=T("C10", "C10_total", "C10_scan_terminates", "C10_lookups") + TIE_REP + REPCOR["C10"], tie=[("spiderweb", ["repair_dna"]), ("graphized", ["path_matching"])], gens=["C10", "GENSW"],
                 rule="ACGT strings >= one window (bad first symbol, error in last window, random, heavily edited) x "
                      "graphs x options under a look-up budget; non-trivial = at least one detection"),
-    "C11": dict(level="proof", theorems=T("C11", "C11_mask", "C11_valid_graph") + TIE_BUILD + GRAPHCOR["C11"], tie=[("spiderweb", ["find_vertices", "connect_valid_graph"]), ("graphized", ["obtain_latters"]), ("operation", ["number_to_dna"])], gens=["C11", "GENSW"],
+    "C11": dict(level="proof", theorems=T("C11", "C11_mask", "C11_valid_graph") + TIE_BUILD + GRAPHCOR["C11"] + TIE_BF[:3] +
+                TIE("BfPipeline", "genTable_eq", "gen_C11_biofilter_mask"), tie=[("spiderweb", ["find_vertices", "connect_valid_graph"]), ("graphized", ["obtain_latters"]), ("operation", ["number_to_dna"]), "biofilter"], gens=["C11", "GENSW", "GENBF"],
                 rule="filters (documented-interface table filter, keyword-extended filter, LocalBioFilter, empty) x "
                      "k, and masks x dtype for the valid graph; non-trivial = mask neither empty nor full"),
     "C12": dict(level="proof", theorems=T("C12", "C12_valid_all", "C12_last", "C12_window_conj", "C12_revcomp",
